@@ -19,6 +19,7 @@ import (
 	"strings"
 	"sync"
 	"testing"
+	"sync/atomic"
 	"time"
 )
 
@@ -110,6 +111,19 @@ type config struct {
 	Driver string
 	Replay string
 	Scale  float64
+	// Deadline (VERIF_BUDGET_S seconds after start, 0 = none): campaigns stop generating new cases after it
+	Deadline time.Time
+}
+
+var budgetHit atomic.Bool
+
+// expired reports whether the campaign's time budget is used up; loops over generated cases test it.
+func expired() bool {
+	if cfg.Deadline.IsZero() || time.Now().Before(cfg.Deadline) {
+		return false
+	}
+	budgetHit.Store(true)
+	return true
 }
 
 var cfg config
@@ -132,6 +146,9 @@ func loadCfg() {
 	cfg.Scale, _ = strconv.ParseFloat(envOr("VERIF_SCALE", "1"), 64)
 	if cfg.Scale <= 0 {
 		cfg.Scale = 1
+	}
+	if b, _ := strconv.ParseFloat(os.Getenv("VERIF_BUDGET_S"), 64); b > 0 {
+		cfg.Deadline = time.Now().Add(time.Duration(b * float64(time.Second)))
 	}
 }
 
@@ -285,6 +302,9 @@ func TestMain(m *testing.M) {
 	t0 := time.Now()
 	c(r)
 	r.WallS = time.Since(t0).Seconds()
+	if budgetHit.Load() {
+		r.Notes = append(r.Notes, fmt.Sprintf("time budget (VERIF_BUDGET_S=%s) reached: the campaign stopped generating cases after %d evaluations", os.Getenv("VERIF_BUDGET_S"), r.Evaluations))
+	}
 	if r.Findings == nil {
 		r.Findings = []Finding{}
 	}
